@@ -487,3 +487,39 @@ func (e *IntEnv) nonZeroAt(v ssa.Value, b *ssa.BasicBlock) bool {
 	}
 	return false
 }
+
+// sameAllocLoad: a and b are loads of the same local variable (Alloc) with no store to it and no call
+// (closures may write captured variables) on any path from a to b.
+func sameAllocLoad(a, b ssa.Value) bool {
+	la, ok1 := a.(*ssa.UnOp)
+	lb, ok2 := b.(*ssa.UnOp)
+	if !ok1 || !ok2 || la.Op != token.MUL || lb.Op != token.MUL || la.X != lb.X {
+		return false
+	}
+	al, ok := la.X.(*ssa.Alloc)
+	if !ok {
+		return false
+	}
+	captured := false
+	for _, ref := range *al.Referrers() {
+		if _, ok := ref.(*ssa.MakeClosure); ok {
+			captured = true
+		}
+	}
+	mayWrite := func(in ssa.Instruction) bool {
+		if st, ok := in.(*ssa.Store); ok && st.Addr == ssa.Value(al) {
+			return true
+		}
+		if _, ok := in.(ssa.CallInstruction); ok && captured {
+			if c, isCall := in.(*ssa.Call); isCall {
+				if _, isBuiltin := c.Call.Value.(*ssa.Builtin); isBuiltin {
+					return false
+				}
+			}
+			return true
+		}
+		return false
+	}
+	// either order
+	return !pathHas(la, lb, mayWrite) && instrDominates(la, lb) || !pathHas(lb, la, mayWrite) && instrDominates(lb, la)
+}
